@@ -36,6 +36,7 @@ def run(ctx):
         rule=("non-trivial: every case except unparsable ones (each is a malformed / boundary input to a real entry point); "
               "distinct = distinct case lines"),
         key_fn=key_fn, what_fn=what_fn,
+        translators=[("gofn-mp", "GoFnMpGen.v")], bridge_files=["Gen/GoFnMp_bridge.v"],
         trusted=[
             "extraction: ExtrOcamlBasic only; OCaml driver ocaml/C13/main.ml + ocaml/C07/a07lib.ml + ocaml/common/conv.ml",
             "harness harness/cmd/hC13 + harness/internal/a07ammo: real providers and library entry points under recover, bounded waits and (hostile sizes) a subprocess with ulimit -v",
